@@ -10,6 +10,7 @@ import Model.Math.Render
 import Model.Spec.MathSpec
 import Proofs.Lemmas.C13Exact
 import Proofs.Lemmas.C13Nothing
+import Proofs.Lemmas.C13Perm
 
 namespace C13
 open Math
@@ -255,5 +256,47 @@ the Go code on every run) is 2/C(2n,n) correctly rounded to float64. -/
 theorem utest_minp_table :
     Nothing.uTestMinP = (List.range 9).map fun k => Spec.MathSpec.minPF (k + 1) := by
   decide +kernel
+
+/-! ## the exact permutation p-value (specification level) -/
+
+open Spec.MathSpec in
+/-- **two_sided_combination_symmetric** — min(1, 2·min(a, b)), the way the repaired
+`AssumeNothing.Compare` forms the two-sided p-value from the two one-sided ones, is symmetric in
+(a, b) and lies in [0,1] whenever a, b ≥ 0. -/
+theorem two_sided_combination_symmetric (a b : Rat) :
+    combine2 a b = combine2 b a ∧ (0 ≤ a → 0 ≤ b → 0 ≤ combine2 a b ∧ combine2 a b ≤ 1) :=
+  ⟨combine2_comm a b, combine2_range a b⟩
+
+open Spec.MathSpec in
+/-- **p_range** — the exact permutation p-value lies in [0,1]. -/
+theorem p_range {α : Type} [LinearOrder α] (x1 x2 : List α) : 0 ≤ pPerm x1 x2 ∧ pPerm x1 x2 ≤ 1 :=
+  combine2_range _ _ (tailLower_nonneg x1 x2) (tailUpper_nonneg x1 x2)
+
+open Spec.MathSpec in
+/-- **p_symmetric** — exchanging the two samples does not change the exact permutation p-value
+(ties included): the lower tail of one problem is the upper tail of the other. -/
+theorem p_symmetric {α : Type} [LinearOrder α] (x1 x2 : List α) : pPerm x1 x2 = pPerm x2 x1 :=
+  pPerm_swap x1 x2
+
+open Spec.MathSpec in
+/-- **p_perm_invariant** — reordering each sample does not change the exact permutation p-value. -/
+theorem p_perm_invariant {α : Type} [LinearOrder α] {x1 y1 x2 y2 : List α}
+    (h1 : x1.Perm y1) (h2 : x2.Perm y2) : pPerm x1 x2 = pPerm y1 y2 :=
+  pPerm_perm h1 h2
+
+open Spec.MathSpec in
+/-- **p_mono_invariant** — the exact permutation p-value only depends on the order type of the
+pooled sample: any strictly increasing map of the values leaves it unchanged (this also
+justifies the oracle's use of dense ranks). -/
+theorem p_mono_invariant {α β : Type} [LinearOrder α] [LinearOrder β] (f : α → β) (hf : StrictMono f)
+    (x1 x2 : List α) : pPerm (x1.map f) (x2.map f) = pPerm x1 x2 :=
+  pPerm_map f hf x1 x2
+
+open Spec.MathSpec in
+/-- **p_scale_invariant** — a common positive rescaling of both samples does not change the exact
+permutation p-value (any ordered field). -/
+theorem p_scale_invariant {K : Type} [Field K] [LinearOrder K] [IsStrictOrderedRing K] (c : K) (hc : 0 < c)
+    (x1 x2 : List K) : pPerm (x1.map (c * ·)) (x2.map (c * ·)) = pPerm x1 x2 :=
+  pPerm_map _ (fun _ _ h => mul_lt_mul_of_pos_left h hc) x1 x2
 
 end C13
